@@ -168,6 +168,12 @@ M("c04.toy.dsa.verify.modq", "C04", DSAPY, "v = (pow(g, u1, p) * pow(y, u2, p) %
 M("c04.toy.dsa.sign.r", "C04", DSAPY, "r = pow(g, k, p) % q  # r = (g**k mod p) mod q", "r = pow(g, k, q) % p", "K-pw|dsa.toy.sign")
 M("c04.twin.toy.ecdsa.verify", "C04", ECCPY, "return (point1 + point2).x % order == rs[0]", "v = (point2 + point1).x % order\n        return v == rs[0]", twin=True)
 
+PSSPY = "lib/Crypto/Signature/pss.py"
+M("c04.emsa.pss.lmask.encode", "C04", PSSPY, "    maskedDB = bchr(bord(maskedDB[0]) & ~lmask) + maskedDB[1:]\n    # Step 12", "    maskedDB = bchr(bord(maskedDB[0]) & (~lmask >> 1)) + maskedDB[1:]\n    # Step 12", "K-pw|pss.emsa.bytes")
+M("c04.emsa.pss.mprime", "C04", PSSPY, "    m_prime = bchr(0)*8 + mhash.digest() + salt\n    # Step 6", "    m_prime = bchr(0)*8 + salt + mhash.digest()\n    # Step 6", "K-pw|pss.emsa.bytes")
+M("c04.emsa.pss.verify.step9", "C04", PSSPY, "    db = bchr(bord(db[0]) & ~lmask) + db[1:]\n    # Step 10", "    # Step 10", "K-pw|pss.emsa.bytes")
+M("c04.emsa.p115.ps", "C04", "lib/Crypto/Signature/pkcs1_15.py", "    PS = b'\\xFF' * (emLen - len(digestInfo) - 3)", "    PS = b'\\xFF' * (emLen - len(digestInfo) - 4) + b'\\xFE'", "K-pw|p115.emsa.bytes")
+M("c04.emsa.p115.min", "C04", "lib/Crypto/Signature/pkcs1_15.py", "    if emLen<len(digestInfo)+11:", "    if emLen<len(digestInfo)+10:", "K-pw|p115.emsa.bytes")
 NUMPY = "lib/Crypto/Util/number.py"
 M("c14.legacy.mr.n_1", "C14", NUMPY, "        if z == 1 or z == n_1:\n            continue", "        if z == 1:\n            continue", "K-pw|primality.legacy")
 M("c14.legacy.mr.tested", "C14", NUMPY, "        while a in tested:\n            a = getRandomRange (2, n, randfunc)\n", "", "K-pw|primality.legacy.mr")
